@@ -1817,7 +1817,9 @@ fn static_error_family(sink: &mut Sink, o: &mut Oracle) {
 
 fn enum_family(sink: &mut Sink, o: &mut Oracle) {
     // (document template with {P} for the anchored payload, how the variant uses `*r`)
-    let forms: [(&str, &str); 12] = [
+    let forms: [(&str, &str); 16] = [
+        ("tuple/tagged-direct", "r: 0\ns: !Pair [1, {P}]\n"), ("tuple/tagged-direct-first", "r: 0\ns: !Pair\n  - {P}\n  - 2\n"),
+        ("tuple/tagged-anchored", "r: &r !Pair [1, {P}]\ns: *r\n"), ("struct/tagged-map-direct", "r: 0\ns: {Rec: {w: {P}}} # é\n"),
         ("newtype/flow-map", "r: &r {P}\ns: {Circle: *r}\n"), ("newtype/block-map", "r: &r {P}\ns:\n  Circle: *r\n"),
         ("newtype/block-map-crlf", "r: &r {P}\r\ns:\r\n  Circle: *r\r\n"), ("newtype/tagged", "r: &r !Circle {P}\ns: *r\n"),
         ("tuple/flow", "r: &r {P}\ns: {Pair: [1, *r]}\n"), ("tuple/block", "r: &r {P}\ns:\n  Pair:\n    - *r\n    - 2\n"),
@@ -1839,7 +1841,7 @@ fn enum_family(sink: &mut Sink, o: &mut Oracle) {
                 Err(_) => o.fail("C16-panic", "panic", &text, "panic".into(), "no panic".into()),
                 Ok(Ok(d)) => {
                     if !good { o.fail("C16-enum-payload", &format!("{name}: mismatching payload accepted"), &text, format!("{d:?}"), "a type error".into()); continue; }
-                    let sp = match &d.s { Sh::Circle(x) => x, Sh::Pair(a, b) => if cpos("[1, *r]").is_some() { b } else { a }, Sh::Rec { w } => w };
+                    let sp = match &d.s { Sh::Circle(x) => x, Sh::Pair(a, b) => if cpos("[1, ").is_some() { b } else { a }, Sh::Rec { w } => w };
                     if off(&sp.referenced) != want_ref || off(&sp.defined) != want_def {
                         o.fail("C16-enum-payload-spanned", &format!("{name}: span-carrying payload of a variant"), &text,
                                format!("referenced offset {} defined offset {}", off(&sp.referenced), off(&sp.defined)), format!("referenced offset {want_ref} defined offset {want_def}"));
